@@ -133,3 +133,47 @@ Theorem C02_holds_inputs : forall g ops,
     0 <= gh_withdrawn gh <= InvReach.requested ops /\ 0 <= gh_slashed gh /\ 0 <= gh_burned gh.
 Proof. exact InvReach.C02_closed_total. Qed.
 Print Assumptions C02_holds_inputs.
+
+(* ---- histories with contract calls, the effect contract replaced by the CHECKED boolean
+   (EffectCheck.v).  InvSupply.C02_history_evm assumes [covered]: every EVM-path delivery carries an
+   effect satisfying [evm_effect_fee_ok ... (evm_burn s t)].  Here that part is derived from
+   [effects_hold] (= [check_effects c = []], check_effects_sound); what remains of [covered] is that
+   delivered transactions carry Go-typed fields ([txs_typed]: tx_wf and payload_wf, nothing about
+   t_evm).  [hrunE] is the history relation that accounts [evm_burn] under gh_burned. *)
+From Rigo Require AppRun EffectCheck InvEvmClosed.
+Theorem C02_checked_run : forall g rest senders s p gh,
+  InvEvmClosed.no_init rest ->
+  EffectCheck.effects_hold senders AppRun.state0 (AppRun.AInit g :: rest) ->
+  hrunE (init_chain g, PIdle, ghost0) (InvEvmClosed.sops_of rest) = Some (s, p, gh) ->
+  (forall pre, pre `prefix_of` InvEvmClosed.sops_of rest -> run_ok (srun (init_chain g) pre)) ->
+  Forall (fun o => match o with SDeliver t => tx_wf t /\ payload_wf t | _ => True end) (InvEvmClosed.sops_of rest) ->
+  bal_range (work (init_chain g)) ->
+  supply (work (init_chain g)) + gh_withdrawn gh < supply_bound ->
+  s = srun (init_chain g) (InvEvmClosed.sops_of rest) /\
+  C02_equation g s p gh /\
+  bal_range (work s) /\
+  (forall a, 0 <= bal_of (work s) a < supply_bound) /\
+  0 <= gh_withdrawn gh /\ 0 <= gh_slashed gh /\ 0 <= gh_burned gh.
+Proof. exact InvEvmClosed.C02_checked_run. Qed.
+Print Assumptions C02_checked_run.
+
+(* ... and with [run_ok] at the prefixes discharged as in C02_holds_closed (run_ok_reachable asks
+   nothing of t_evm): hypotheses on the inputs, the verdict of the check, the minted bound *)
+Theorem C02_checked : forall g rest senders s p gh,
+  InvEvmClosed.no_init rest ->
+  EffectCheck.effects_hold senders AppRun.state0 (AppRun.AInit g :: rest) ->
+  hrunE (init_chain g, PIdle, ghost0) (InvEvmClosed.sops_of rest) = Some (s, p, gh) ->
+  (params_ok (gen_params g) /\ (length (gen_validators g) <= 1)%nat /\
+   Forall (fun v : addr * Z => 0 <= v.2 < two63) (gen_validators g) /\
+   Forall (fun h : addr * Z => 0 <= h.2 < two256) (gen_holders g)) ->
+  NoDup (0%N :: InvReach.stake_hashes (InvEvmClosed.sops_of rest)) ->
+  Forall (fun o => match o with SDeliver t => InvReach.tx_opts_ok t | _ => True end) (InvEvmClosed.sops_of rest) ->
+  Forall (fun o => match o with SDeliver t => tx_wf t /\ payload_wf t | _ => True end) (InvEvmClosed.sops_of rest) ->
+  supply (work (init_chain g)) + gh_withdrawn gh < supply_bound ->
+  s = srun (init_chain g) (InvEvmClosed.sops_of rest) /\
+  C02_equation g s p gh /\
+  bal_range (work s) /\
+  (forall a, 0 <= bal_of (work s) a < supply_bound) /\
+  0 <= gh_withdrawn gh /\ 0 <= gh_slashed gh /\ 0 <= gh_burned gh.
+Proof. exact InvEvmClosed.C02_checked. Qed.
+Print Assumptions C02_checked.
